@@ -152,6 +152,16 @@ def apply(c, twin, op):
             pool = tracks + ev + [c.sync_track, c.global_events_track, c.metadata, c.sync_track.bpm_events]
             o = pool[op[1] % len(pool)]
             f = dataclasses.fields(o)[op[1] % len(dataclasses.fields(o))].name
+            # … or one of the object's derived public attributes (properties, cached properties), assigned *without* reading it first
+            import functools
+            derived = sorted(k for k in dir(type(o)) if not k.startswith("_") and isinstance(getattr(type(o), k, None), (property, functools.cached_property)))
+            if derived and (op[1] >> 8) % 2:
+                f = derived[(op[1] >> 9) % len(derived)]
+                try:
+                    setattr(o, f, None)
+                    return "ASSIGNED:" + type(o).__name__ + "." + f
+                except (dataclasses.FrozenInstanceError, AttributeError):
+                    return "unit"
             try:
                 setattr(o, f, getattr(o, f))
                 return "ASSIGNED:" + type(o).__name__ + "." + f
@@ -217,6 +227,30 @@ def run_case(text, ops):
     return problem, outs, maps, keys0
 
 
+def assignment_sweep(text):
+    """one instance of every event / track class of the chart × every declared field, every derived public attribute (not read before)
+    and a new name: each assignment must be refused. Returns the accepted ones as (class, attribute)."""
+    import functools
+    c, e, _ = impl.parse(text)
+    if c is None:
+        return []
+    ev, tracks = events_of(c)
+    pool = tracks + ev + [c.sync_track, c.global_events_track, c.sync_track.bpm_events]
+    seen, accepted = set(), []
+    for o in pool:
+        if type(o) in seen:
+            continue
+        seen.add(type(o))
+        derived = sorted(k for k in dir(type(o)) if not k.startswith("_") and isinstance(getattr(type(o), k, None), (property, functools.cached_property)))
+        for f in derived + [f_.name for f_ in dataclasses.fields(o)] + ["verif_new_attribute"]:
+            try:
+                setattr(o, f, None)
+                accepted.append((type(o).__name__, f))
+            except (dataclasses.FrozenInstanceError, AttributeError):
+                pass
+    return accepted
+
+
 def slice(ctx: fw.Ctx) -> fw.Outcome:
     out = fw.Outcome(RULE)
     rng = ctx.sub("ops")
@@ -270,6 +304,12 @@ def slice(ctx: fw.Ctx) -> fw.Outcome:
         c, e, _ = impl.parse(R.text)
         if c is None:
             continue
+        if len(meta) < ctx.n(25, 1500):
+            acc = assignment_sweep(R.text)
+            out.case("As" + fw.h(R.text), True, None, tags=["assignment-sweep"])
+            if acc:
+                out.violation("assign-" + fw.h([R.text, acc[0]]), f"attribute assignment accepted: {acc[0][0]}.{acc[0][1]} = None" + (f" (and {len(acc) - 1} more: {acc[1:4]})" if len(acc) > 1 else ""),
+                              {"op": "assign", "text": R.text, "cls": acc[0][0], "attr": acc[0][1]}, observed="accepted", promised="FrozenInstanceError")
         ops = rand_ops(rng, c, rng.randint(1, 40))
         res = run_case(R.text, ops)
         problem, outs, maps, keys0 = res
@@ -308,6 +348,9 @@ def slice(ctx: fw.Ctx) -> fw.Outcome:
 
 
 def replay(ctx: fw.Ctx, data: dict):
+    if data.get("op") == "assign":
+        acc = assignment_sweep(data["text"])
+        return (data["cls"], data["attr"]) in acc or ([data["cls"], data["attr"]] in [list(a) for a in acc]), str(acc[:5])
     ops = [tuple(o) for o in data["ops"]]
     res = run_case(data["text"], ops)
     return bool(res[0]), str(res[0])
